@@ -8,6 +8,7 @@ package regexp2
 
 import (
 	"sync/atomic"
+	"time"
 
 	"github.com/dlclark/regexp2/v2/syntax"
 )
@@ -170,4 +171,32 @@ func VerifMatchArrays(m *Match) (counts []int, arrays [][]int, balancing bool) {
 		arrays = append(arrays, append([]int(nil), a...))
 	}
 	return counts, arrays, m.balancing
+}
+
+// VerifClockPoint, when set, is called at the schedule points of makeDeadline (1: clockEnd has been
+// read, 2: the time has been read and the provisional deadline computed, 3: between the two
+// critical sections), outside every critical section, so that a harness can hold a goroutine there
+// and force an interleaving of concurrent makeDeadline calls.
+var VerifClockPoint atomic.Pointer[func(point int)]
+
+func verifClockPoint(p int) {
+	if f := VerifClockPoint.Load(); f != nil {
+		(*f)(p)
+	}
+}
+
+// VerifMakeDeadline is makeDeadline: the deadline in ticks for a timeout of d nanoseconds.
+func VerifMakeDeadline(d int64) int64 { return int64(makeDeadline(time.Duration(d))) }
+
+// VerifClockState is a snapshot of the timeout clock: current, clockEnd (ticks), running, whether it
+// was ever started, and the nanoseconds since fast.start (0 when never started).
+func VerifClockState() (current, clockEnd int64, running, started bool, sinceStartNs int64) {
+	fast.mu.Lock()
+	defer fast.mu.Unlock()
+	current, clockEnd = int64(fast.current.read()), int64(fast.clockEnd.read())
+	running, started = fast.running, !fast.start.IsZero()
+	if started {
+		sinceStartNs = int64(time.Since(fast.start))
+	}
+	return
 }
